@@ -59,6 +59,26 @@ theorem stop_needs_no_timer {c : Cfg} (hc : fileCfg c) {s : State} (h : Reachabl
     (s.ent i).upc = .check ∨ (s.ent i).upc = .force :=
   stop_no_timer c (fileCfg_recheck hc) h hs hi hp hd
 
+
+/-- Gen side condition: every early return of the initialiser that owns the NAT socket closes it, and the uplink
+goroutine closes it after the relay function returns. -/
+theorem sockets_closed_in_source :
+    (cfgNatGeneric.closesAll && cfgNatGeneric.uplinkCloses && cfgNatMmsg.closesAll && cfgNatMmsg.uplinkCloses &&
+     cfgSessionGeneric.closesAll && cfgSessionGeneric.uplinkCloses && cfgSessionMmsg.closesAll && cfgSessionMmsg.uplinkCloses) = true := by
+  decide
+
+theorem fileCfg_closes {c : Cfg} (h : fileCfg c) : c.closesAll = true ∧ c.uplinkCloses = true := by
+  have hs := sockets_closed_in_source
+  simp only [Bool.and_eq_true] at hs
+  obtain ⟨cap, h | h | h | h⟩ := h <;> subst h <;> simp_all [Cfg.closesAll]
+
+/-- The socket is released: when every goroutine of a session has returned (eviction, failed initialisation, or Stop),
+its NAT socket is closed; and while the downlink loop runs the socket is open (nobody closes it under the reader). -/
+theorem no_socket_leak {c : Cfg} (hc : fileCfg c) {s : State} (h : Reachable c s) {i : Nat} (hi : i < s.n) :
+    ((s.ent i).finished = true → (s.ent i).sock = false) ∧
+    (((s.ent i).ipc = .dRead ∨ (s.ent i).ipc = .dProc) → (s.ent i).sock = true) :=
+  ⟨socket_released c (fileCfg_closes hc).1 (fileCfg_closes hc).2 h hi, downlink_socket_open c h hi⟩
+
 /-- Shutdown, safety parts: Stop passes `mwg.Wait` only after the receive loop returned (no new sessions afterwards),
 and once `wg.Wait` has returned every session goroutine (initialiser/downlink/clean-up and uplink) has returned.
 PARTIAL: that every fair run reaches this point is not proved (see header). -/
@@ -149,6 +169,9 @@ end SSV.C12
 #print axioms SSV.C12.no_send_on_closed
 #print axioms SSV.C12.close_once
 #print axioms SSV.C12.stop_needs_no_timer
+#print axioms SSV.C12.sockets_closed_in_source
+#print axioms SSV.C12.fileCfg_closes
+#print axioms SSV.C12.no_socket_leak
 #print axioms SSV.C12.all_threads_exit_partial
 #print axioms SSV.C12.stop_timer_witness_without_recheck
 #print axioms SSV.C12.f9_schedule_with_recheck
